@@ -46,20 +46,21 @@ CHECKS = {
         "c04_duplicate_ids_refuted), c04_mapping_buffer_files_independent (the buffer-file path run_mapping uses: unconditionally), c04_final_is_query_order, "
         "c04_seeds_fixed_at_dispatch and c04_seed_of_worker_schedule_independent (the seed of chunk i is the i-th draw of the parent stream whatever the schedule and worker "
         "count), c04_same_chunks_same_result (worker counts inducing the same effective chunk size give the same mapping), c04_stats_merge_order_fixed (for a non-associative add), "
-        "c04_marker_merge_sorted, c04_selection_keyed_by_parent, c04_selection_result_order_independent / _keys / _total (the returned lookup lists the parents in parent_list order whatever the completion order: finding F19c04, repaired in /repo 9a355c6). Tie: the real stages (run_mapping, run_type_assignment_on_h5ad, statistics, markers, p-value mask, selection) under "
+        "c04_marker_merge_sorted, c04_selection_keyed_by_parent, c04_selection_result_order_independent / _keys / _total (the returned lookup lists the parents in parent_list order whatever the completion order: finding F19c04, repaired in /repo 9a355c6), c04_pool_invariant, c04_selection_schedule_independent, c04_cache_sorted_by_reference_index / c04_cache_groups_strictly_sorted / c04_cache_independent_of_listing (the marker cache depends only on the SET of genes under each key: where hash-seed dependence would enter). Tie: the real stages (run_mapping, run_type_assignment_on_h5ad, statistics, markers, p-value mask, selection) under "
         "every completion order of 3 (quick) / 4 (thorough) workers forced by harness-side delays, worker-count sweeps 1..6, and fresh interpreters under several PYTHONHASHSEED "
         "values; outputs compared bitwise; observed chunks, completion order and per-worker seeds compared with the model.",
    note="Partial by nature: real scheduling, Manager proxies and the absence of other nondeterminism (shared state, set/dict order) are established only by the bitwise runs. "
-        "c04_cache_sorted_by_reference_index and the pool invariant of the selection scheduler are not stated or proved; per-chunk work is an abstract function.",
+        "per-chunk work is an abstract function.",
    technique="Coq proof of hand-written Gallina model + correspondence check (real stages under controlled schedules / hash seeds, bitwise comparison and model replay)", ref="DESIGN.md section 7 C04"),
  'C05': dict(
    text="Theorems: c05_chunks_cover (for every row count and chunk size >= 1 the chunk list starts at 0, is contiguous, has no empty chunk, ends at n and concatenating "
         "the row blocks gives the matrix: every row exactly once, in file order), c05_load_csr_exact, c05_iterate_csr_exact, c05_iterate_dense_exact, "
         "c05_iterate_csc_exact (the CSC path: on-disk conversion for every memory budget and load chunk size, then CSR, returns exactly the rows of the transpose "
-        "of the column-major view) and c05_encodings_agree (dense, CSR and CSC encodings of one matrix iterate to the same rows). Tie: AnnDataRowIterator / get_batch / "
+        "of the column-major view) and c05_encodings_agree (dense, CSR and CSC encodings of one matrix iterate to the same rows), and the get_batch theorems (see note). Tie: AnnDataRowIterator / get_batch / "
         "inner functions on generated matrices (empty rows and columns, one row, >100 stored values) x {dense, CSR, CSC} x {X, layer} x dtypes x HDF5 chunk shapes x "
         "chunk sizes x max_gb down to the enforced minima, vs the extracted model.",
-   note="get_batch (exact for duplicate-free row lists / rejects others) is covered by the correspondence check only (statements kept as comments in Props/C05.v); "
+   note="get_batch is proved too: c05_get_batch_exact / c05_load_disjoint_exact / _dense / _csc (every non-empty duplicate-free in-range row list returns those rows in the requested "
+        "order) and c05_get_batch_rejects / _dense / _csc (empty, duplicate or out-of-range lists yield an error, never wrong rows); "
         "h5py slicing and scipy toarray are trusted; F2c (CSC matrix without any stored value made the conversion raise) was repaired in /repo (2b803dd).",
    technique=TECH, ref="DESIGN.md section 7 C05"),
  'C07': dict(
@@ -78,20 +79,19 @@ CHECKS = {
    text="Theorems: c09_additive, c09_commutative_monoid, c09_order_irrelevant; c09_partition_independent (+ pairwise form: for every split of the cells into files, every "
         "rows_at_a_time >= 1 and worker count >= 1 the written table equals the direct per-cluster computation), c09_unlabelled_contribute_nothing, c09_work_split_safe / "
         "c09_work_split_covers (no IndexError, the loads partition the chunk list), c09_rows_addressed_by_name, c09_merge_keeps_largest, c09_merge_tie_rule, "
-        "c09_truncation_partial (table level: each new leaf's row is the statistics of the union of its old leaves' cells), c09_truncation_groups, c09_collapse_is_additive. "
+        "c09_truncation (full: the truncated file holds the tree with the levels dropped, again valid, and for every new leaf the statistics of exactly the cells below it = direct computation against the coarser hierarchy; leaf level and several levels included), c09_truncation_total(_writer), c09_truncation_partial, c09_truncation_groups, c09_collapse_is_additive, c09_merge_idempotent, c09_merge_order_irrelevant(_without_ties), c09_merge_names_matter_with_ties. "
         "Tie: precompute_summary_stats_from_h5ad[_list_and_tree], truncate_precomputed_stats_file, merge_precompute_files on generated references x file splits x encodings "
         "x rows_at_a_time x workers vs the extracted model.",
-   note="c09_truncation is _partial: identifying the old tree's ancestor relation with the truncated tree's structure is C10's drop_level lemma and is not composed in. "
-        "Float summation not modelled: sums exact on dyadic inputs, within 2(n+2) eps sum|x| on raw counts. F2s (CSC file without stored values) repaired in /repo (2b803dd).",
+   note="Float summation not modelled: sums exact on dyadic inputs, within 2(n+2) eps sum|x| on raw counts. F2s (CSC file without stored values) repaired in /repo (2b803dd).",
    technique=TECH, ref="DESIGN.md section 7 C09"),
  'C11': dict(
    text="Theorems: c11_holm_tie_invariant (for every argsort result), c11_restricted_holm_equiv / _decisions (the restricted Holm variant decides exactly as full Holm at "
-        "p_th), c11_boring_t_sound_partial, c11_penetrance_sound (no margin needed since the repair of F8 in /repo e33b45d), c11_penetrance_complete, c11_sound, "
+        "p_th), c11_boring_exact_p_ge / c11_boring_t_sound / c11_boring_t_sound_code (skipping |t| <= boring_t changes no decision, under explicit premises about scipy's CDFs: Student CDF monotone and symmetric, t_cdf(-x) >= norm_cdf(-x)), c11_boring_t_sound_partial, c11_penetrance_sound (no margin needed since the repair of F8 in /repo e33b45d), c11_penetrance_complete, c11_sound, "
         "c11_sound_full_holm, c11_complete, c11_exact_iff, c11_direction, c11_up_down_exact, c11_no_gene_both_ways, c11_up_down_cover, c11_pair_swap, c11_chunk_merge "
         "(every n_per), c11_worker_independent, c11_tables_total, c11_empty_direction_table (F17 repaired in /repo 90f7980), c11_mask_file_exact, c11_mask_file_strict_is_zero, c11_mask_route_sound, c11_mask_route_complete. Tie: correct_ttest / "
         "approx_correct_ttest / penetrance tests / score_differential_genes / _get_validity_mask on a dyadic grid where binary64 is exact, and both marker routes end to end "
         "on generated statistics files vs the extracted model.",
-   note="c11_boring_t_sound is _partial (the CDF step is a numeric per-run check; scipy CDFs not modelled); c11_tables_transpose is C13's. Known finding F16 (mask route has no n_cells_min test); F8 and F17 repaired in /repo.",
+   note="c11_boring_t_sound rests on stated premises about scipy's CDFs (Section hypotheses, not proved; norm_cdf(-boring_t) >= p_th/2 is also checked numerically per run); the big_nu approximation is not covered; c11_tables_transpose is C13's. Known finding F16 (mask route has no n_cells_min test); F8 and F17 repaired in /repo.",
    technique=TECH, ref="DESIGN.md section 7 C11"),
  'C10': dict(
    text="20 theorems over unbounded trees about a model of validate_taxonomy_tree, get_taxonomy_tree, get_child_to_parent, convert_tree_to_leaves, get_all_leaf_pairs, _drop_level, "
@@ -122,7 +122,8 @@ CHECKS = {
         "c13_parallel_empty, c13_slices_partition, c13_copy_h5_1d/2d, c13_copy_layer_sparse/dense. Tie: every 0/1 pattern up to 3x3 (quick) / 4x4 (thorough) + random larger matrices "
         "through transpose_sparse_matrix_on_disk, csc_to_csr_on_disk, the v2 parallel version (1-4 workers), pivot_csr_h5ad, shuffle_csr_h5ad_rows, subset_csc_h5ad_columns, "
         "amalgamate_h5ad, copy_layer_to_x, copy_h5_excluding_data, with observed loop bounds compared to the model's.",
-   note="shuffle_rows / subset_columns / amalgamate are modelled and tied by differential testing only (statements kept as comments in Props/C13.v); gzip not modelled; "
+   note="shuffle / subset / amalgamate are proved too: c13_shuffle_rows (every permutation; the non-permutation reading refuted by c13_shuffle_rows_sublist_refuted: shuffle_csr_h5ad_rows does not "
+        "validate its order), c13_subset_columns, c13_amalgamate, c13_amalgamate_join, c13_amalgamate_wire; gzip not modelled; "
         "the zero-size-chunk family (F2, F2w, F4, F4z, F4m, F2a, amalgamate-empty-piece, copy-layer-empty-sparse) was repaired in /repo (2b803dd); the model follows the repaired code.",
    technique=TECH, ref="DESIGN.md section 7 C13"),
  'C17': dict(
@@ -171,12 +172,11 @@ CHECKS = {
         "never hangs; Ok implies every code is 0; some non-zero code implies a raise naming a dispatched worker and its code), c14_no_unchecked_pop, c14_single_failure_reported, "
         "c14_abnormal_codes, c14_mapping_effects / c14_failed_run_effects / c14_any_inner_failure / c14_failed_trace_has_property (a failing assignment gives run_mapping's failed-run "
         "effect trace for all 256 configurations: re-raise, log with traceback written, JSON/HDF5 with config/log/metadata only, no results, no CSV, no success message), "
-        "c14_no_complete_output (none of the six stage descriptions reaches its completing effect after a failing worker), c14_result_buffer_removed_on_every_path / c14_result_buffer_cleaned (after the repair of F9 in /repo 70038ee), c14_selection_scheduler_partial. Tie: the real loops run "
+        "c14_no_complete_output (none of the six stage descriptions reaches its completing effect after a failing worker), c14_result_buffer_removed_on_every_path / c14_result_buffer_cleaned (after the repair of F9 in /repo 70038ee), c14_selection_scheduler / _partition (the behemoth scheduler of select_all_markers never hangs for a duplicate-free parent list; Ok implies every parent was started and every code is 0; a non-zero code implies a raise), c14_selection_limits, c14_selection_duplicate_parent_refuted (a duplicated parent makes the loop spin: reproduced on the real code, direct API callers only). Tie: the real loops run "
         "against stand-in processes following the model's world (virtual schedules) and exhaustive fault injection with forked workers — 3 failure modes (SIGKILL, os._exit(3), raise) x "
         "3 crash points x every worker on all six stages (+ the nested transposition) — observing exception, exit codes, listings after all descendants exit, JSON/HDF5 keys, log text "
         "and whether the next stage accepts what is left.",
-   note="Partial by nature: the OS, multiprocessing and the stage code's conformance to the models are validated by controlled runs, not proved. The selection scheduler's no-hang is not "
-        "proved (c14_selection_scheduler_partial). A hanging worker, a dying Manager process and a crash of the parent are not modelled. The clean-up race of the finally blocks (siblings "
+   note="Partial by nature: the OS, multiprocessing and the stage code's conformance to the models are validated by controlled runs, not proved. A hanging worker, a dying Manager process and a crash of the parent are not modelled. The clean-up race of the finally blocks (siblings "
         "still writing when the parent removes the scratch dir: OSError replaces RuntimeError about 1 in 300) is an oracle input.",
    technique="Coq proof of hand-written Gallina model + correspondence check (fault enumeration on the real stages and virtual-schedule runs of the real loops vs the extracted model)", ref="DESIGN.md section 7 C14"),
  'C15': dict(
